@@ -81,6 +81,7 @@ inductive Cond where
   | onlyExc (sel : List Nat)             -- `only_exceptions(*sel)`
   | fn (f : Kind → CondRes)              -- any other callable, as a table over result kinds
   | slower (limit : Nat)                 -- `time_condition=limit`: `_spent.get() > limit`
+  | slowerAnd (limit : Nat) (c : Cond)   -- `time_condition=limit` together with `condition=c`: both have to accept
 
 def selected (sel : List Nat) (c : Nat) : Bool := sel.isEmpty || sel.contains c
 
@@ -98,6 +99,7 @@ def Cond.eval : Cond → Kind → (dur : Nat) → CondRes
       | .theExc, _ => .other true                      -- "the exception it was handed" needs an exception
       | r, _ => r
   | .slower limit, _, dur => .bool (decide (limit < dur))
+  | .slowerAnd limit c, k, dur => if limit < dur then c.eval k dur else .bool false
 
 /-- injective code of (call key, slot): slot 0 is the key itself, slot `i+1` is `key:i` -/
 def ckey (k j : Nat) : Nat := if k < j then j * j + k else k * k + k + j
